@@ -30,11 +30,14 @@ pub open spec fn conj_post(s: Seq<Option<BoundSet>>, r: Seq<BoundSet>) -> bool {
             && (forall|v: VKey| #![trigger gate(r[0], v)] within(r[0], v) ==> (gate(r[0], v) <==> some_gate(s, n, v)))
     &&& r.len() == 0 ==> !has_some(s, n) || forall|v: VKey| !#[trigger] all_within(s, n, v)
     &&& all_small(s) ==> ssmall(r)
+    // a list with a single comparator is that comparator
+    &&& (s.len() == 1 && s[0] is Some) ==> r.len() == 1 && r[0] == s[0]->0
 }
 pub open spec fn all_small(s: Seq<Option<BoundSet>>) -> bool { forall|i: int| 0 <= i < s.len() ==> ((#[trigger] s[i]) matches Some(b) ==> bs_small(b)) }
 /// loop invariant of `intersect_all` after n comparators
 pub open spec fn conj_inv(s: Seq<Option<BoundSet>>, n: int, acc: Option<BoundSet>) -> bool {
-    match acc {
+    &&& (n == 1 && s.len() >= 1 && s[0] is Some) ==> acc == s[0]
+    &&& match acc {
         None => !has_some(s, n),
         Some(a) => bs_wf(a) && has_some(s, n) && (all_small(s) ==> bs_small(a))
             && (forall|v: VKey| #![trigger within(a, v)] within(a, v) <==> all_within(s, n, v))
